@@ -127,6 +127,8 @@ var ledgerSpecs = []ledgerSpec{
 		return []ledgerRun{
 			{"drain-to-zero+two-truncations", ledger.Cfg{Nodes: []string{"G"}, Supply: sp(10, 0), Menu: []ledger.TxSpec{tx("tz", "A", "B", 6, 0), cf("c4"), cf("c5"), cf("c6")}, Hidden: []ledger.TxSpec{t1}, Truncate: true, Prefix: drain, Props: only("C06")}, d + 2, 0, 0},
 			{"two-nodes", ledger.Cfg{Nodes: []string{"G", "N1"}, Supply: sp(10, 0), Menu: []ledger.TxSpec{t1, t2, t3, tx("tself", "A", "A", 1, 0)}, Props: only("C06")}, d, 0, 0},
+			// amounts at the 2^64 edge: recirculated funds make a wallet's gross inflow exceed 2^64 although every balance is representable
+			{"huge-amounts", ledger.Cfg{Nodes: []string{"G"}, Supply: sp(1<<64-1, 0), Menu: []ledger.TxSpec{tx("h1", "R", "A", 1<<63, 0), tx("h2", "A", "R", 1<<63, 0), tx("h3", "R", "A", 1<<63, 999_999_999_999_999_999)}, Props: only("C06")}, d, 0, 0},
 			{"truncated", ledger.Cfg{Nodes: []string{"G"}, Supply: sp(10, 0), Menu: []ledger.TxSpec{t1, t3, t5, t7}, Crafted: []ledger.TxSpec{tx("side", "R", "B", 1, 0)}, Truncate: true, Props: only("C06")}, d + 1, 0, 0},
 		}
 	}},
@@ -243,6 +245,13 @@ func ledgerMain(s ledgerSpec, args []string) int {
 		sched.WorkerMain(c03Scenarios())
 		return 0
 	}
+	if s.id == "C07" && fs.NArg() >= 1 && fs.Arg(0) == "schedworker" {
+		sched.WorkerMain(c07Scenarios())
+		return 0
+	}
+	if s.id == "C07" && *replay != "" && isSchedReplay(*replay) {
+		return sched.ReplayFile("C07", c07Scenarios(), *replay)
+	}
 	if s.id == "C03" && *replay != "" && isSchedReplay(*replay) {
 		return sched.ReplayFile("C03", c03Scenarios(), *replay)
 	}
@@ -306,6 +315,13 @@ func ledgerMain(s ledgerSpec, args []string) int {
 	space.FillEvidence(rep, total)
 	if s.id == "C03" && *run == "" {
 		ex, div := c03SchedRun(rep, *procs)
+		if !ex {
+			rep.Set("exhaustive", false)
+		}
+		total.Diverged += div
+	}
+	if s.id == "C07" && *run == "" {
+		ex, div := c07SchedRun(rep, *procs)
 		if !ex {
 			rep.Set("exhaustive", false)
 		}
